@@ -1,7 +1,22 @@
 (* DBProofsCrash.v -- process-crash theorems of the database model (DB.v) instantiated with the flat
    reference index.  Properties C03 (a process crash at any instant: acknowledged writes survive, the
    write in flight is atomic) and C04 (repeated crashes: recovery is idempotent, also when the crash
-   strikes during recovery itself).  No axioms (Print Assumptions at the end). *)
+   strikes during recovery itself).  No axioms (Print Assumptions at the end).
+
+   Crash model: [crash_image d es img] -- the operation whose events are [es] was started on disk [d] and
+   the process died: before some call (ci_here after ci_step's), or in the middle of a data write with
+   the first c bytes of the record in the file, for EVERY 0 < c < rsize r ([torn]).
+   Main statements:
+     crash_image_split, crash_image_no_append, neutral_images, safe_run_images   generic
+     crash_facts_indep, image_facts_indep, neutral_payload_free   nothing depends on index / metadata content
+     write_crash, torn_ok             the write-ahead order; a torn append leaves a stuck tail
+     crash_put, crash_delete, crash_sync, crash_close, crash_open_recover   all images of an operation
+     crash_then_recover               open_recover_ok in "exists" form
+     C03_put, C03_delete, C03_sync, C03_close
+     C04_recover_after_crashed_recovery, C04_chain (inductive [epochs], [recoveries], [history];
+       specification [spec_epochs]), C04_epoch
+     crash_promote                    ready for the compaction micro-step "promote"
+     crash_put_nonvacuous, crash_put_nonvacuous_recover   concrete instance with a torn image *)
 From Coq Require Import ZArith Lia ZifyN ZifyNat ZifyBool Permutation.
 From Pogreb Require Import Base BaseLemmas Crc Bytes Record RecordProofs Flat Spec DB DBInv DBLemmas
   DBProofsOps DBProofsRecovery.
@@ -394,6 +409,32 @@ Proof.
       destruct A3 as (_ & _ & _ & _ & _ & R6 & R7). destruct Hg2 as (_ & B2 & L2).
       split; [split; [exact A1|split; [unfold bac_ok; rewrite R7; exact B2|congruence]]|].
       left. congruence.
+Qed.
+
+(* Ready for compaction (promoteRecord = the same events, the record being a COPY of the live record
+   of its key): every image has the same contents as before the step. *)
+Lemma append_copy_same_contents (d d' : disk) id off r :
+  olog d' = olog d ++ [(id, off, r)] -> rdel r = false -> sget (abs d) (rk r) = Some (rv r) ->
+  forall k, sget (abs d') k = sget (abs d) k.
+Proof.
+  intros Eo Hdel Hlive k. rewrite (abs_snoc _ _ _ Eo), sget_apply_rec. cbn [snd]. rewrite Hdel.
+  destruct (key_eqb k (rk r)) eqn:E; [|reflexivity]. apply key_eqb_eq in E. subst k. symmetry. exact Hlive.
+Qed.
+
+Lemma crash_promote (d d' : disk) r id seq off pre i img :
+  Good d -> wr_pre_shape pre id seq ->
+  d' = run_evs (pre ++ [EAppend id seq off r; EIndex i]) d ->
+  DiskOK d' -> tails_nil d' -> rec_fits r ->
+  olog d' = olog d ++ [(id, off, r)] -> rdel r = false -> sget (abs d) (rk r) = Some (rv r) ->
+  crash_image d (pre ++ [EAppend id seq off r; EIndex i]) img ->
+  Good img /\ forall k, sget (abs img) k = sget (abs d) k.
+Proof.
+  intros Hg Hshape Ed' Hok' Ht' Hr Eo Hdel Hlive Himg.
+  rewrite <- (app_nil_r [EAppend id seq off r; EIndex i]) in Himg.
+  destruct (write_crash d d' r id seq off pre i [] img Hg Hshape (or_introl eq_refl) Ed' Hok' Ht' Hr Himg) as [G Ho].
+  split; [exact G|]. intros k. destruct Ho as [Ho|Ho].
+  - rewrite (olog_abs _ _ Ho). reflexivity.
+  - rewrite (olog_abs _ _ Ho). apply (append_copy_same_contents d d' id off r Eo Hdel Hlive).
 Qed.
 
 (* ================================================================================================ *)
@@ -1325,11 +1366,15 @@ Qed.
 
 (* ================================================================================================ *)
 (* Item 5 of the plan (crash_compact_step) needs the cursor invariant [CInv] of DBProofsCompact.v, which
-   did not exist when this file was written: not stated here. *)
+   did not exist when this file was written: not stated here.  [crash_promote] above is the part that
+   does not need it (the promotion micro-step); the removal micro-step (ESync, ERemove of the side file,
+   ERemove of the segment file) keeps the contents only if no record of the removed segment is live
+   and none of its delete records still shadows an older put, which is what [CInv] has to provide. *)
 
 Print Assumptions crash_image_split.
 Print Assumptions image_facts_indep.
 Print Assumptions crash_facts_indep.
+Print Assumptions crash_promote.
 Print Assumptions crash_put.
 Print Assumptions crash_delete.
 Print Assumptions crash_sync.
